@@ -2,6 +2,7 @@
 import hashlib, json, os, sys, time
 
 VERIF = os.path.dirname(os.path.dirname(os.path.abspath(__file__)))
+OUT = os.environ.get("STUNLINT_OUT_DIR", VERIF)   # evidence/ and findings/ go here (scratch runs redirect it)
 KNOWN = os.path.join(VERIF, "known_findings.json")
 
 
@@ -65,7 +66,7 @@ class Check:
                 new.append((k, o))
         for k, kf, o in reported_known:
             print("KNOWN-FINDING: property=%s %s [%s]" % (self.prop, kf.get("what", ""), k))
-        fdir = os.path.join(VERIF, "findings")
+        fdir = os.path.join(OUT, "findings")
         rc = 0
         for k, o in new:
             os.makedirs(fdir, exist_ok=True)
@@ -112,8 +113,8 @@ class Check:
             "wall_s": round(time.time() - self.t0, 3),
             "violations": len(new),
         }
-        os.makedirs(os.path.join(VERIF, "evidence"), exist_ok=True)
-        json.dump(ev, open(os.path.join(VERIF, "evidence", self.prop + ".json"), "w"), indent=1, default=str)
+        os.makedirs(os.path.join(OUT, "evidence"), exist_ok=True)
+        json.dump(ev, open(os.path.join(OUT, "evidence", self.prop + ".json"), "w"), indent=1, default=str)
         print("%s tier=%s: %d obligations, %d discharged, %d known finding(s), %d violation(s)  [%.1fs]" % (
             self.prop, self.tier, n, n_ok, len(reported_known), len(new), time.time() - self.t0))
         if replay:
